@@ -282,6 +282,38 @@ struct Ctx
 using CountFn = std::function<long(Ctx&)>;
 using CaseFn = std::function<void(Ctx&, long)>;
 
+// Probes that run outside main(): a driver may decode / build a fixed set of inputs in a namespace-scope initialiser (its
+// translation unit is linked in front of the library, so it runs before the library's own initialisers) and again in an
+// atexit handler registered there (registered before the library is first used, so it runs after every function-local
+// static of the library has been destroyed). A difference found after main() has returned is appended to the shard's
+// violation log from the handler.
+struct LateReport
+{
+    std::string out, prop, tier;
+    uint64_t seed = 0;
+    long shard = 0;
+};
+inline LateReport& lateReport()
+{
+    static LateReport l;
+    return l;
+}
+inline void lateViolation(const std::string& key, const std::string& detail)
+{
+    LateReport& l = lateReport();
+    if (l.out.empty() || l.out == "/dev/null")
+    {
+        fprintf(stderr, "VIOL %s (after main) %s\n", key.c_str(), detail.c_str());
+        return;
+    }
+    FILE* f = fopen((l.out + ".viol").c_str(), "a");
+    if (!f)
+        return;
+    fprintf(f, "{\"prop\":\"%s\",\"key\":\"%s\",\"case\":-3,\"seed\":%" PRIu64 ",\"tier\":\"%s\",\"detail\":\"%s\",\"input\":\"fixed set of the probe that runs outside main()\"}\n",
+            l.prop.c_str(), jsonEscape(key).c_str(), l.seed, l.tier.c_str(), jsonEscape(detail).c_str());
+    fclose(f);
+}
+
 inline int driverMain(int argc, char** argv, const CountFn& countFn, const CaseFn& caseFn)
 {
     Ctx c;
@@ -315,6 +347,11 @@ inline int driverMain(int argc, char** argv, const CountFn& countFn, const CaseF
     else
         c.verbose = true;
     c.openProgress();
+    lateReport().out = c.out;
+    lateReport().prop = c.prop;
+    lateReport().tier = c.tier;
+    lateReport().seed = c.seed;
+    lateReport().shard = c.shard;
     long total = countFn(c);
     if (total < 0)
     {
